@@ -177,7 +177,7 @@ def _walker_rows(ctx, f, hp, kp):
     descents = []
     hterm = ("p", hp)
     kterm = ("p", kp) if kp else None
-    for p, st in pq.states(ctx, f):
+    for p, st in pq.states(ctx, f, fork_returns=True):
         if p.cut:
             continue
         parses = parse_terms(st)
